@@ -34,9 +34,14 @@ def _jsonable(x):
 
 
 def load_findings():
-    if not os.path.exists(FINDINGS):
-        return []
-    return json.load(open(FINDINGS)).get("findings", [])
+    out = []
+    if os.path.exists(FINDINGS):
+        out += json.load(open(FINDINGS)).get("findings", [])
+    # development drop-ins (merged into known_findings.json at integration time)
+    import glob
+    for f in sorted(glob.glob(os.path.join(ROOT, "known_findings.d", "*.json"))):
+        out += json.load(open(f)).get("findings", [])
+    return out
 
 
 class Run:
